@@ -207,8 +207,10 @@ type E2Result struct {
 	Rejected   int
 	DeltaSkips int // delta responses with SKIPPED-SEGMENTS > 0
 	Bursts     int
-	Classes    map[string]int
-	Excluded   int
+	// GrammarChecked counts playlist responses fed to the strict grammar (C15)
+	GrammarChecked int
+	Classes        map[string]int
+	Excluded       int
 }
 
 func (r *E2Result) add(prop, f string, a ...any) {
@@ -280,6 +282,10 @@ func RunC06(sc Script, reqs []ReqSpec, bursts map[int]int, tmpBase string, exclu
 				res.add("C15", "playlist of %s unreadable: %v", s, err)
 				return false
 			}
+			if errs := m3u8x.Strict(string(r.Body)); len(errs) > 0 {
+				res.add("C15", "playlist of %s does not parse under the strict grammar: %s\n%s", s, strings.Join(errs, "; "), r.Body)
+			}
+			res.GrammarChecked++
 			states[s] = st
 		}
 		return true
@@ -372,6 +378,10 @@ func RunC06(sc Script, reqs []ReqSpec, bursts map[int]int, tmpBase string, exclu
 					}
 					body := string(r.Body)
 					want := st.text
+					if errs := m3u8x.Strict(body); len(errs) > 0 {
+						res.add("C15", "%s: response does not parse under the strict grammar: %s\n%s", where, strings.Join(errs, "; "), body)
+					}
+					res.GrammarChecked++
 					if pr.delta {
 						x, err := m3u8x.ParseMedia(body)
 						if err != nil || x.Skip == nil {
